@@ -38,12 +38,15 @@ package motion
 
 //@ func NewFrameLoop
 //@   allocates
-//@   requires size >= 1
+//@   requires size >= 1 && !isnil(camera) && camera.ResX() >= 0 && camera.ResY() >= 0
 //@   loop 1 invariant 0 <= rangeindex + 1 && rangeindex + 1 <= len(frames) && len(frames) == size && fresh(arr(frames)) && off(frames) == 0
 //@   loop 1 invariant forall j int :: 0 <= j && j <= rangeindex ==> fresh(frames[j])
 //@   loop 1 invariant forall j int, k int :: 0 <= j && j < k && k <= rangeindex ==> frames[j] != frames[k]
+//@   loop 1 invariant [C07,C08] forall j int :: 0 <= j && j <= rangeindex ==> frameDims(frames[j], camera.ResX(), camera.ResY())
 //@   ensures [C19] fresh(result) && result.inv() && result.n() == 0 && result.mark == 0 && result.size == size
 //@   ensures [C19] forall i int :: 0 <= i && i < size ==> fresh(result.frames[i])
+//@   ensures [C07,C08] forall i int :: 0 <= i && i < size ==> frameDims(result.frames[i], camera.ResX(), camera.ResY())
+//@   ensures fresh(arr(result.frames)) && fresh(arr(result.orderedFrames))
 
 //@ func (fl *FrameLoop) Reset
 //@   requires fl != nil && fl.storage()
@@ -61,6 +64,7 @@ package motion
 //@   ghost_exit fl.base = fl.currentIndex == 0 ? old(fl.base) + fl.size : old(fl.base)
 //@   ensures [C19] fl.inv() && fl.n() == old(fl.n()) + 1 && fl.mark == old(fl.mark)
 //@   ensures [C19] result == fl.frames[fl.currentIndex] && fl.currentIndex == fl.slot(fl.n())
+//@   ensures fl.currentIndex == (old(fl.currentIndex) + 1 == fl.size ? 0 : old(fl.currentIndex) + 1) && fl.size == old(fl.size)
 //@   ensures [C19] forall i int :: 0 <= i && i < fl.size && i != fl.currentIndex ==> fl.seq(i) == old(fl.seq(i))
 
 //@ func (fl *FrameLoop) Current
@@ -140,6 +144,13 @@ package motion
 //@   && (mp.constantRecording ==> !isnil(mp.constantRecorder) && ref(mp.constantRecorder) != 0 && ref(mp.constantRecorder) != ref(mp.snapshotRecorder))
 //@   && (!mp.constantRecording ==> ref(mp.constantRecorder) == 0)
 //@   && !isnil(mp.snapshotRecorder) && ref(mp.snapshotRecorder) != 0
+//@   && mp.detOK()
+//@
+//@ // the detector is well-formed and its storage is separate from the pre-trigger ring
+//@ pred (mp *MotionProcessor) detOK() :=
+//@      mp.motionDetector.DInv() && mp.motionDetector.bgInv() && mp.frameLoop.storage()
+//@   && (forall i int :: 0 <= i && i < mp.frameLoop.size ==> frameDims(mp.frameLoop.frames[i], mp.motionDetector.gResX, mp.motionDetector.gResY) && mp.motionDetector.notMine(mp.frameLoop.frames[i]) && mp.frameLoop.frames[i] != mp.motionDetector.background)
+//@   && arr(mp.frameLoop.orderedFrames) != arr(mp.motionDetector.flooredFrames.frames) && arr(mp.frameLoop.orderedFrames) != arr(mp.motionDetector.diffFrames.frames)
 
 //@ pred (mp *MotionProcessor) PInvM() := mp.recState() && mp.recRun()
 //@
@@ -170,16 +181,6 @@ package motion
 //@   && (mp.SnapshotRecording ==> mp.snapshotRecorder.inFile == mp.snapshotFrames && 1 <= mp.snapshotFrames && mp.snapshotFrames <= 20)
 
 //@ pred (mp *MotionProcessor) PInv() := mp.wired() && mp.PInvM() && mp.PInvC() && mp.PInvS()
-
-//@ func (d *motionDetector) Detect(frame)
-//@   mode trusted
-//@   requires d != nil && frame != nil
-//@   modifies d.*, any(uint16), any(float32), any(cptvframe.Telemetry)
-
-//@ func (d *motionDetector) Reset(camera)
-//@   mode trusted
-//@   requires d != nil
-//@   modifies d.*
 
 //@ func (mp *MotionProcessor) canStartWriting
 //@   requires mp != nil && mp.wired()
@@ -227,7 +228,7 @@ package motion
 //@   requires mp != nil && mp.PInv() && frame != nil && frame == mp.frameLoop.frames[mp.frameLoop.currentIndex]
 //@   modifies mp.triggered, mp.isRecording, mp.framesWritten, mp.writeUntil, mp.run, mp.lastMotionFW, mp.gMotion
 //@   modifies mp.frameLoop.currentIndex, mp.frameLoop.bufferFull, mp.frameLoop.oldest, mp.frameLoop.base, mp.frameLoop.mark, elems(mp.frameLoop.orderedFrames)
-//@   modifies mp.motionDetector.*, any(uint16), any(float32), any(cptvframe.Telemetry), mp.log.*
+//@   modifies mp.motionDetector.affectedByFCC, mp.motionDetector.count, mp.motionDetector.tempThresh, mp.motionDetector.backgroundFrames, mp.motionDetector.firstDiff, mp.motionDetector.epoch, mp.motionDetector.flooredFrames.currentIndex, mp.motionDetector.flooredFrames.bufferFull, mp.motionDetector.flooredFrames.oldest, mp.motionDetector.flooredFrames.base, mp.motionDetector.flooredFrames.mark, mp.motionDetector.diffFrames.currentIndex, mp.motionDetector.diffFrames.bufferFull, mp.motionDetector.diffFrames.oldest, mp.motionDetector.diffFrames.base, mp.motionDetector.diffFrames.mark, any(uint16), any(float32), any(cptvframe.Telemetry), mp.log.*
 //@   modifies mp.recorder.open, mp.recorder.inFile, mp.recorder.wfault, mp.recorder.starts, mp.recorder.startOK, mp.recorder.bg, mp.recorder.thresh
 //@   modifies mp.recorder.next, mp.recorder.first, mp.recorder.writes, mp.recorder.stops, mp.recorder.stopOK
 //@   call Detect#1 bind m
@@ -288,16 +289,12 @@ package motion
 //@   ensures [C17] ncalls("WriteFrame") == 1 ==> callarg("WriteFrame", 1, 1) == frame
 //@   ensures [C17] !old(mp.StartSnapshot) && !old(mp.SnapshotRecording) ==> ncalls("WriteFrame") == 0 && ncalls("StartRecording") == 0 && ncalls("StopRecording") == 0
 
-//@ func NewMotionDetector(args, previewFrames, camera)
-//@   mode trusted
-//@   allocates
-//@   ensures fresh(result)
-
 //@ func NewMotionProcessor
 //@   allocates
 //@   requires motionConf != nil && recorderConf != nil && !isnil(c)
 //@   requires 0 <= recorderConf.MinSecs && recorderConf.MinSecs <= recorderConf.MaxSecs && c.FPS() >= 1
 //@   requires recorderConf.PreviewSecs*c.FPS() + motionConf.TriggerFrames >= 1
+//@   requires c.ResX() >= 0 && c.ResY() >= 0 && motionConf.FrameCompareGap >= 0 && motionConf.EdgePixels >= 0 && 2*motionConf.EdgePixels <= c.ResX() && 2*motionConf.EdgePixels <= c.ResY()
 //@   requires !isnil(recorder) && ref(recorder) != 0 && !isnil(snapshotRecorder) && ref(snapshotRecorder) != 0
 //@   requires ref(recorder) != ref(constantRecorder) && ref(recorder) != ref(snapshotRecorder) && (ref(constantRecorder) != 0 ==> ref(constantRecorder) != ref(snapshotRecorder))
 //@   requires !recorder.open && recorder.next == 0 && !snapshotRecorder.open && !constantRecorder.open
@@ -311,7 +308,7 @@ package motion
 
 //@ func (mp *MotionProcessor) Reset
 //@   requires mp != nil && mp.PInv()
-//@   modifies mp.framesWritten, mp.writeUntil, mp.isRecording, mp.triggered, mp.run, mp.frameLoop.oldest, mp.frameLoop.mark, mp.recorder.open, mp.recorder.stops, mp.recorder.stopOK, mp.motionDetector.*
+//@   modifies mp.framesWritten, mp.writeUntil, mp.isRecording, mp.triggered, mp.run, mp.frameLoop.oldest, mp.frameLoop.mark, mp.recorder.open, mp.recorder.stops, mp.recorder.stopOK, mp.motionDetector.affectedByFCC, mp.motionDetector.count, mp.motionDetector.tempThresh, mp.motionDetector.backgroundFrames, mp.motionDetector.firstDiff, mp.motionDetector.epoch, mp.motionDetector.flooredFrames.currentIndex, mp.motionDetector.flooredFrames.bufferFull, mp.motionDetector.flooredFrames.oldest, mp.motionDetector.flooredFrames.base, mp.motionDetector.flooredFrames.mark, mp.motionDetector.diffFrames.currentIndex, mp.motionDetector.diffFrames.bufferFull, mp.motionDetector.diffFrames.oldest, mp.motionDetector.diffFrames.base, mp.motionDetector.diffFrames.mark
 //@   ghost_exit mp.run = old(mp.isRecording) ? 0 : old(mp.run)
 //@   ensures mp.wired()
 //@   ensures [C01,C02,C12,C13,C14] mp.recSeq() && !mp.isRecording && mp.frameLoop.n() == old(mp.frameLoop.n())
@@ -331,7 +328,7 @@ package motion
 //@   modifies mp.CurrentFrame, mp.crFrames, mp.StartSnapshot, mp.SnapshotRecording, mp.snapshotFrames
 //@   modifies mp.triggered, mp.isRecording, mp.framesWritten, mp.writeUntil, mp.run, mp.lastMotionFW, mp.gMotion
 //@   modifies mp.frameLoop.currentIndex, mp.frameLoop.bufferFull, mp.frameLoop.oldest, mp.frameLoop.base, mp.frameLoop.mark, elems(mp.frameLoop.orderedFrames)
-//@   modifies mp.motionDetector.*, any(uint16), any(float32), any(cptvframe.Telemetry), mp.log.*
+//@   modifies mp.motionDetector.affectedByFCC, mp.motionDetector.count, mp.motionDetector.tempThresh, mp.motionDetector.backgroundFrames, mp.motionDetector.firstDiff, mp.motionDetector.epoch, mp.motionDetector.flooredFrames.currentIndex, mp.motionDetector.flooredFrames.bufferFull, mp.motionDetector.flooredFrames.oldest, mp.motionDetector.flooredFrames.base, mp.motionDetector.flooredFrames.mark, mp.motionDetector.diffFrames.currentIndex, mp.motionDetector.diffFrames.bufferFull, mp.motionDetector.diffFrames.oldest, mp.motionDetector.diffFrames.base, mp.motionDetector.diffFrames.mark, any(uint16), any(float32), any(cptvframe.Telemetry), mp.log.*
 //@   modifies mp.recorder.open, mp.recorder.inFile, mp.recorder.wfault, mp.recorder.starts, mp.recorder.startOK, mp.recorder.bg, mp.recorder.thresh
 //@   modifies mp.recorder.next, mp.recorder.first, mp.recorder.writes, mp.recorder.stops, mp.recorder.stopOK
 //@   modifies mp.constantRecorder.open, mp.constantRecorder.inFile, mp.constantRecorder.wfault, mp.constantRecorder.starts, mp.constantRecorder.startOK, mp.constantRecorder.bg, mp.constantRecorder.thresh
@@ -355,10 +352,10 @@ package motion
 //@   ensures [C13,C17] ncalls("process") == 1 && ncalls("processConstantRecorder") == 1 && ncalls("processSnapshot") == 1 ==> callarg("process", 1, 1) == old(mp.frameLoop.frames[mp.frameLoop.currentIndex]) && callarg("processConstantRecorder", 1, 1) == callarg("process", 1, 1) && callarg("processSnapshot", 1, 1) == callarg("process", 1, 1)
 
 //@ func (mp *MotionProcessor) ProcessFrame
-//@   requires mp != nil && mp.PInv() && srcFrame != nil
+//@   requires mp != nil && mp.PInv() && frameDims(srcFrame, mp.motionDetector.gResX, mp.motionDetector.gResY)
 //@   modifies mp.triggered, mp.isRecording, mp.framesWritten, mp.writeUntil, mp.run, mp.lastMotionFW, mp.gMotion
 //@   modifies mp.frameLoop.currentIndex, mp.frameLoop.bufferFull, mp.frameLoop.oldest, mp.frameLoop.base, mp.frameLoop.mark, elems(mp.frameLoop.orderedFrames)
-//@   modifies mp.motionDetector.*, any(uint16), any(float32), any(cptvframe.Telemetry), mp.log.*
+//@   modifies mp.motionDetector.affectedByFCC, mp.motionDetector.count, mp.motionDetector.tempThresh, mp.motionDetector.backgroundFrames, mp.motionDetector.firstDiff, mp.motionDetector.epoch, mp.motionDetector.flooredFrames.currentIndex, mp.motionDetector.flooredFrames.bufferFull, mp.motionDetector.flooredFrames.oldest, mp.motionDetector.flooredFrames.base, mp.motionDetector.flooredFrames.mark, mp.motionDetector.diffFrames.currentIndex, mp.motionDetector.diffFrames.bufferFull, mp.motionDetector.diffFrames.oldest, mp.motionDetector.diffFrames.base, mp.motionDetector.diffFrames.mark, any(uint16), any(float32), any(cptvframe.Telemetry), mp.log.*
 //@   modifies mp.recorder.open, mp.recorder.inFile, mp.recorder.wfault, mp.recorder.starts, mp.recorder.startOK, mp.recorder.bg, mp.recorder.thresh
 //@   modifies mp.recorder.next, mp.recorder.first, mp.recorder.writes, mp.recorder.stops, mp.recorder.stopOK
 //@   ensures mp.wired() && mp.frameLoop.n() == old(mp.frameLoop.n()) + 1
@@ -510,3 +507,71 @@ package motion
 //@   ensures [C07] forall y int, x int :: 0 <= y && y < d.gResY && 0 <= x && x < d.gResX ==> old(d.flooredFrames.frames[d.flooredFrames.currentIndex]).Pix[y][x] == frame.Pix[y][x]
 //@   ensures [C07,C08] forall y int, x int :: d.interior(y, x) ==> old(d.diffFrames.frames[d.diffFrames.currentIndex]).Pix[y][x] == d.diffspec(old(d.flooredFrames.frames[d.flooredFrames.currentIndex]).Pix[y][x], old(d.flooredFrames.frames[d.flooredFrames.slot(d.flooredFrames.hs())]).Pix[y][x])
 //@   ensures [C07] d.flooredFrames.size == old(d.flooredFrames.size) && d.tempThresh == old(d.tempThresh)
+
+// Background estimate (dynamic threshold). bgInv: the background frame and the
+// per-pixel weights have the camera's resolution and are separate storage.
+//@ pred (d *motionDetector) bgInv() :=
+//@      frameDims(d.background, d.gResX, d.gResY) && d.notMine(d.background)
+//@   && len(d.backgroundWeight) == d.gResY
+//@   && (forall y int :: 0 <= y && y < d.gResY ==> len(d.backgroundWeight[y]) == d.gResX)
+//@   && d.backgroundFrames >= 0
+
+//@ func (d *motionDetector) updateBackground(new_frame, prevFFC) (avg, changed)
+//@   mode trusted
+//@   requires d != nil && d.geom() && d.bgInv() && frameDims(new_frame, d.gResX, d.gResY) && new_frame != d.background
+//@   modifies d.backgroundFrames, pix(d.background), any(float32)
+//@   ensures d.backgroundFrames == old(d.backgroundFrames) + 1 && 0.0 <= avg && avg < 65536.0
+//@   ensures [C15] forall y int, x int :: d.interior(y, x) ==> d.background.Pix[y][x] <= new_frame.Pix[y][x]
+//@   ensures [C15] prevFFC || d.backgroundFrames == 1 ==> (forall y int, x int :: d.interior(y, x) ==> d.background.Pix[y][x] == new_frame.Pix[y][x])
+//@   ensures [C15] d.backgroundFrames == 1 ==> changed
+
+//@ func (d *motionDetector) Detect(frame)
+//@   requires d != nil && d.DInv() && d.bgInv() && frameDims(frame, d.gResX, d.gResY) && d.notMine(frame) && frame != d.background
+//@   modifies d.affectedByFCC, d.count, d.tempThresh, d.backgroundFrames, d.firstDiff, d.epoch
+//@   modifies d.flooredFrames.currentIndex, d.flooredFrames.bufferFull, d.flooredFrames.oldest, d.flooredFrames.base, d.flooredFrames.mark
+//@   modifies d.diffFrames.currentIndex, d.diffFrames.bufferFull, d.diffFrames.oldest, d.diffFrames.base
+//@   modifies any(uint16), any(float32), any(cptvframe.Telemetry)
+//@   ensures [C07,C08,C09,C15] d.DInv() && d.bgInv()
+//@   ensures [C09] d.affectedByFCC == ffcAffected(frame)
+//@   ensures [C09] ffcAffected(frame) || old(d.affectedByFCC) ==> !result
+//@   ensures [C09] ncalls("pixelsChanged") == 1 && callarg("pixelsChanged", 1, 1) == frame && callarg("pixelsChanged", 1, 2) == old(d.affectedByFCC) && result == callres("pixelsChanged", 1).0
+//@   ensures [C07] !d.dynamicThresh ==> d.tempThresh == old(d.tempThresh) && ncalls("updateBackground") == 0 && ncalls("calculateThreshold") == 0
+//@   ensures [C15] d.dynamicThresh && ffcAffected(frame) ==> d.tempThresh == old(d.tempThresh) && ncalls("updateBackground") == 0
+//@   ensures [C15] d.dynamicThresh && !ffcAffected(frame) ==> ncalls("updateBackground") == 1 && callarg("updateBackground", 1, 1) == frame && callarg("updateBackground", 1, 2) == old(d.affectedByFCC)
+//@   ensures [C15] ncalls("calculateThreshold") <= 1 && (ncalls("calculateThreshold") == 1 ==> ncalls("updateBackground") == 1 && callarg("calculateThreshold", 1, 1) == callres("updateBackground", 1).0 && callres("updateBackground", 1).1 && d.backgroundFrames > d.previewFrames)
+//@   ensures [C15] ncalls("updateBackground") == 1 && callres("updateBackground", 1).1 && d.backgroundFrames > d.previewFrames ==> ncalls("calculateThreshold") == 1
+//@   ensures [C15] ncalls("calculateThreshold") == 0 ==> d.tempThresh == old(d.tempThresh)
+
+//@ func (d *motionDetector) Reset(camera)
+//@   requires d != nil && d.DInv()
+//@   modifies d.backgroundFrames, d.count, d.epoch
+//@   modifies d.flooredFrames.currentIndex, d.flooredFrames.oldest, d.flooredFrames.bufferFull, d.flooredFrames.base, d.flooredFrames.mark
+//@   modifies d.diffFrames.currentIndex, d.diffFrames.oldest, d.diffFrames.bufferFull, d.diffFrames.base, d.diffFrames.mark
+//@   ghost_exit d.epoch = 0
+//@   ensures [C07,C08,C09,C15] d.DInv()
+//@   ensures [C09] d.flooredFrames.n() == 0 && d.flooredFrames.mark == 0 && d.diffFrames.n() == 0 && d.epoch == 0
+//@   ensures [C15,C09] d.backgroundFrames == 0
+
+//@ func newDebugTracker
+//@   mode trusted
+//@   allocates
+//@   ensures fresh(result)
+
+//@ func NewMotionDetector(args, previewFrames, camera)
+//@   allocates
+//@   requires !isnil(camera) && camera.ResX() >= 0 && camera.ResY() >= 0 && camera.FPS() >= 1
+//@   requires args.FrameCompareGap >= 0 && args.EdgePixels >= 0 && 2*args.EdgePixels <= camera.ResX() && 2*args.EdgePixels <= camera.ResY()
+//@   ghost_exit result.gResX = camera.ResX(); result.gResY = camera.ResY()
+//@   loop 1 invariant 0 <= rangeindex + 1 && rangeindex + 1 <= len(d.backgroundWeight) && len(d.backgroundWeight) == camera.ResY() && fresh(arr(d.backgroundWeight))
+//@   loop 1 invariant forall j int :: 0 <= j && j <= rangeindex ==> len(d.backgroundWeight[j]) == camera.ResX()
+//@   ensures [C07,C08,C09,C15] fresh(result) && result.DInv() && result.bgInv()
+//@   ensures [C07] result.flooredFrames.size == args.FrameCompareGap + 1 && result.flooredFrames.n() == 0 && result.diffFrames.n() == 0 && !result.firstDiff
+//@   ensures [C07] result.useOneDiff == args.UseOneDiffOnly && result.deltaThresh == args.DeltaThresh && result.countThresh == args.CountThresh && result.tempThresh == args.TempThresh && result.warmerOnly == args.WarmerOnly
+//@   ensures [C08] result.start == args.EdgePixels && result.columnStop == camera.ResX() - args.EdgePixels && result.rowStop == camera.ResY() - args.EdgePixels
+//@   ensures [C15] result.tempThreshMin == args.TempThreshMin && result.tempThreshMax == args.TempThreshMax && result.dynamicThresh == args.DynamicThreshold && result.previewFrames == previewFrames && result.backgroundFrames == 0
+//@   ensures [C15] result.numPixels == real((result.rowStop - result.start) * (result.columnStop - result.start))
+//@   ensures [C09] !result.affectedByFCC && result.epoch == 0
+//@   ensures result.gResX == camera.ResX() && result.gResY == camera.ResY()
+//@   ensures forall i int :: 0 <= i && i < result.flooredFrames.size ==> fresh(result.flooredFrames.frames[i])
+//@   ensures forall i int :: 0 <= i && i < 2 ==> fresh(result.diffFrames.frames[i])
+//@   ensures fresh(result.background) && fresh(arr(result.flooredFrames.frames)) && fresh(arr(result.flooredFrames.orderedFrames)) && fresh(arr(result.diffFrames.frames)) && fresh(arr(result.diffFrames.orderedFrames))
